@@ -285,7 +285,7 @@ def main() -> int:
     cov = {"states": max(r.distinct, 1), "transitions": max(len(trs), 1), "traces_validated_against_impl": len(steps_v),
            "real_executions_distinct": n_real, "initial_contexts": n_init,
            "registered_tags": built["n_tags"], "classes": built["n_classes"], "declarations_class_level": built["n_class_decls"],
-           "declarations_tag_level": built["n_decls"], "cases_tag_x_xsdtype": len(cases),
+           "declarations_tag_level": built["n_decls"], "declaration_source_per_tag": built["extraction"], "cases_tag_x_xsdtype": len(cases),
            "applicable_declarations": sum(len(c["decls"]) for c in cases), "declarations_judged": len(judged_decl),
            "not_applicable": built["not_applicable"], "unsupported_content_models": built["unsupported"],
            "handwritten_insertion_sites_not_judged_here": built["handwritten_sites"][:80], "op_counts": op_counts, "validated": tot,
